@@ -29,6 +29,8 @@ CLAIMED = {
   "Universal Coq theorems over the model of to_dict: an entry determines its block (class, payload, ordered successors, back edges, value table / assignments, region kind, header, exiting, recorded parent, children) and two hierarchies with unique names and the same dictionary have the same blocks and nesting. Per graph (all stages, plain and bytecode payloads) the implementation's write-read-write chain is evaluated through dict and YAML, and each written dictionary is compared with the model's to_dict of the exported graph - so the re-read graph equals the written one in everything the dictionary records. from_dict's reconstruction and the YAML text layer (PyYAML) are exercised, not modelled."),
  "C16": ("proof", "5 (C16)", "Coq proof of the breadth-first iterator model for arbitrary graphs; order-exact correspondence on every (sub)graph of every stage",
   "Universal Coq theorems (any graph, any successor function, no bound on size): the breadth-first iterator with the code's queue discipline terminates, yields the head first, no item twice, only items of the level, everything reachable, and every other item after one of its predecessors; so the region-concealing view is a permutation of the graph's own items and SCFG.__iter__ a permutation of all descendants whenever each level is connected from its head - a hypothesis evaluated per instance. The model's lists equal the implementation's, order included, for every sub-region at every depth after every stage."),
+ "C17": ("proof", "5 (C17)", "Coq census theorems over a model of the renderers; parsed DOT body compared command by command",
+  "Universal Coq theorems over the render model: exactly one node per non-region block and one cluster per region, in hierarchy order and properly nested (structural induction); an edge is drawn exactly for each jump target (solid) and back edge (dashed) of each non-region block of the iteration, to the innermost header. The DOT body the implementation produces (SCFGRenderer for all payload types after every stage, ByteFlowRenderer on real functions) is parsed and compared command by command with the model; label text is checked by the harness, not proved; no dot binary or viewer is involved."),
  "C18": ("proof", "5 (C18)", "Coq proof over a model of NameGenerator translated from source; exact correspondence on recorded histories",
   "Universal Coq theorems over the NameGenerator model: joint injectivity of the three name templates for arbitrary kind strings, pairwise distinctness for any request interleaving from any generator state, parse(render)=id, Covers after reserve, and C18_request_fresh: after ANY history of SCFG constructions, add_block calls and requests a requested name is neither present nor handed out before. Templates, counter discipline, the regular expression, reserve_names and its call sites are re-translated from scfg.py on every run (fail-closed); model and implementation agree exactly on recorded histories."),
 }
